@@ -415,7 +415,10 @@ func missReason(p *pki, ch []*gcert) string {
 	}
 	last := ch[len(ch)-1]
 	if len(ch) > 1 {
-		if !isCA(last) {
+		// RFC 5280 4.2.1.9 (quoted in CheckSignatureFrom) speaks of VERSION 3 certificates: a v1 / v2 certificate in
+		// Roots is a trust anchor like any other (crypto/x509 and zcrypto both build chains to it), so its
+		// missing CA flag explains nothing
+		if !isCA(last) && last.std.Version == 3 {
 			return "root is not a CA certificate"
 		}
 		if lim, ok := pathLimit(last); ok && len(ch)-2 > lim {
@@ -427,6 +430,13 @@ func missReason(p *pki, ch []*gcert) string {
 			if bytes.Equal(r.g.der, ch[i].der) {
 				return "an intermediate of the chain is itself in Roots (skipped as intermediate)"
 			}
+		}
+	}
+	for i := 1; i < len(ch); i++ {
+		// the statement is silent on key usage; CheckSignatureFrom documents (and crypto/x509 shares) the rule
+		// that an issuer with a keyUsage extension needs keyCertSign: both behaviours are accepted
+		if ku := ch[i].std.KeyUsage; ku != 0 && ku&stdx509.KeyUsageCertSign == 0 {
+			return "an issuer's keyUsage extension lacks keyCertSign (refused by CheckSignatureFrom; the statement is silent on key usage)"
 		}
 	}
 	for i := 0; i+1 < len(ch); i++ {
